@@ -11,3 +11,5 @@ def run(prog, rep):
     r_id.run_seed(prog, rep)
     r_id.run_ids(prog, rep)
     r_val.run(prog, rep)
+    from ..rules import r_order as _ro
+    _ro.run_name_first(prog, rep)
